@@ -336,3 +336,8 @@ def _mixin(repo: Repo, rep: Report) -> None:
         rep.ok("R14.5", "__init_subclass__ compiles unpacker and packer for every mixin ancestor (root first)", None)
     else:
         rep.violation("R14.5", fi.key, f"__init_subclass__: ancestors loop={loop} both directions={both}", "every format of every mixin ancestor must be compiled at class creation", loc=fi.loc)
+
+
+_ADDENDUM = ' R14.8: ownership -- every in-place mutation in the library acts on a container the function owns or on a designed shared store (table with reasons); attribute stores on parameter objects happen only after the parameter was rebound to a fresh object. R14.9: per-builder stores (attrs_registry, globals, ...) are bound only to fresh containers or constructor parameters. R14.10: emitted CodeBuilder(...) calls pass for every keyword the run-time value of that role. Borrowed: R01.5.'
+EXPLANATION += _ADDENDUM
+LEVEL_TEXT += _ADDENDUM
